@@ -1,9 +1,10 @@
 #!/usr/bin/env python3
 """Prints the round-2 seeded-change table for DESIGN.md section 9 from seeded/*-2/meta.json + seeded/ROUND2_RESULTS.json."""
-import json, glob, os
-res = json.load(open('/verif/seeded/ROUND2_RESULTS.json'))
+import json, glob, os, sys
+rnd = sys.argv[1] if len(sys.argv) > 1 else '2'
+res = json.load(open(f'/verif/seeded/ROUND{rnd}_RESULTS.json'))
 print("| seeded | what it breaks | needs | result |\n|---|---|---|---|")
-for d in sorted(glob.glob('/verif/seeded/*-2')):
+for d in sorted(glob.glob(f'/verif/seeded/*-{rnd}')):
     n = os.path.basename(d)
     m = json.load(open(d + '/meta.json'))
     r = res.get(n, {"result": "not run"})
